@@ -209,9 +209,9 @@ def main(tier, seed, replay=None):
     common.ensure_worker("chk")
     run = common.Run(PROP, tier, seed)
     q = tier == "quick"
-    cases = [("split", seed, i) for i in range(150 if q else 8000)]
+    cases = [("split", seed, i) for i in range(400 if q else 8000)]
     cases += [("vis", seed, i) for i in range(40 if q else 600)]
-    cases += [("hist", seed, i) for i in range(100 if q else 6000)]
+    cases += [("hist", seed, i) for i in range(250 if q else 6000)]
     for r in common.run_sharded(run_case, cases):
         if r.get("verdict") is None and "harness_error" not in r:
             run.merge_counters(r.get("cov"))
